@@ -539,6 +539,9 @@ fn recover(
         }
     }
 
+    // The replayed pages must be durable before the WAL, their only other copy, is collapsed.
+    ht_fd.sync_all()?;
+
     // Finally, we collapse the WAL file and fsync.
     writeout::truncate_wal(wal_fd, true)?;
 
